@@ -8,6 +8,7 @@ import SfntV.Model.CffIndex
 import SfntV.Model.CffDict
 import SfntV.Model.CffCharset
 import SfntV.Model.CffFdselect
+import SfntV.Model.CffEncoding
 
 namespace SfntV.Cff.Spec
 open SfntV SfntV.Cff
@@ -157,6 +158,7 @@ structure FontSummary where
   fds : List Nat              -- FD index of every glyph
   privs : List PrivateInfo
   widths : List Dec
+  encoding : Option (List Nat)   -- simple fonts with a custom encoding: glyph of every code
 deriving Repr
 
 def readPrivate (std custom : Array String) (data : Bytes) (d : Dict) : Option PrivateInfo := do
@@ -232,7 +234,12 @@ def readFont (std : Array String) (data : Bytes) : Option FontSummary := do
     match ← t2WidthArg cs with
     | none => pure p.defaultWidth
     | some d => pure (Dec.add p.nominalWidth (Dec.ofFixed d))
+  -- "Encoding: number — encoding offset (0 = Standard, 1 = Expert)"; custom encodings only
+  let encOff ← Dict.int top 16 0
+  let encoding ← (if isCID ∨ encOff ≤ 1 then pure none
+    else (specEncoding data encOff.toNat charset).map some : Option (Option (List Nat)))
   pure {
+    encoding := encoding,
     fontName := fontName, strs := strs,
     isFixedPitch := (← Dict.int top 3073 0) ≠ 0,
     underlinePos := ← Dict.num top 3075 (Dec.ofInt (-100)), underlineThick := ← Dict.num top 3076 (Dec.ofInt 50),
